@@ -35,6 +35,7 @@ func executeFlush(db *DB, flushAction memStoreFlushAction) error {
 	numElements := uint64(memStoreToFlush.Size())
 	// we can skip if there is nothing to write, usually that indicates a proper "close" was done.
 	if memStoreToFlush.Size() == 0 {
+		verifFlush("skip", memStoreToFlush, "")
 		log.Printf("no memstore flush necessary due to empty store, skipping\n")
 		return nil
 	}
@@ -43,6 +44,7 @@ func executeFlush(db *DB, flushAction memStoreFlushAction) error {
 
 	gen := atomic.AddUint64(&db.currentGeneration, uint64(1))
 	writePath := filepath.Join(db.basePath, fmt.Sprintf(SSTablePattern, gen))
+	verifFlush("take", memStoreToFlush, writePath)
 	err := os.MkdirAll(writePath, 0700)
 	if err != nil {
 		return err
@@ -57,11 +59,13 @@ func executeFlush(db *DB, flushAction memStoreFlushAction) error {
 		return err
 	}
 
+	verifFlush("written", memStoreToFlush, writePath)
 	if walPath != "" {
 		err = os.Remove(walPath)
 		if err != nil {
 			return err
 		}
+		verifFlush("walrm", memStoreToFlush, walPath)
 	}
 
 	reader, err := sstables.NewSSTableReader(
@@ -91,10 +95,12 @@ func (db *DB) rotateWalAndFlushMemstore() error {
 	if err != nil {
 		return err
 	}
+	verifWalRotated(walPath)
 	db.storeFlushChannel <- memStoreFlushAction{
 		memStore: swapMemstore(db),
 		walPath:  walPath,
 	}
+	verifHandoff()
 	return nil
 }
 
@@ -104,5 +110,6 @@ func swapMemstore(db *DB) *memstore.MemStoreI {
 		readStore:  storeToFlush,
 		writeStore: memstore.NewMemStore(),
 	}
+	verifSwap(storeToFlush)
 	return &storeToFlush
 }
